@@ -66,11 +66,6 @@ func randPass(r *rng.R) string {
 	return string(b)
 }
 
-type needle struct {
-	what string
-	b    []byte
-}
-
 type life struct {
 	gone     bool // the wallet was removed by an attempt that should have been refused
 	r        *rng.R
@@ -86,7 +81,7 @@ type life struct {
 	mnemonic string
 	remark   string
 	entLen   int
-	needles  []needle
+	sc       *scanner
 	rf       *bipref.P
 	acct     *bipref.Key // private account key of the reference
 	addrKeys map[[2]uint32]bool
@@ -94,26 +89,15 @@ type life struct {
 	lastKV   map[string]string
 }
 
-func (l *life) addNeedle(what string, b []byte) {
-	if len(b) < 6 {
-		return
-	}
-	l.needles = append(l.needles, needle{what, append([]byte{}, b...)})
-}
+// a text secret searched for whole, in every encoding (taint.go)
+func (l *life) addNeedle(what string, b []byte) { l.sc.addSecret(what, b, false) }
 
-// every encoding a byte secret could appear in
-func (l *life) addSecret(what string, b []byte) {
-	l.addNeedle(what+":raw", b)
-	l.addNeedle(what+":hex", []byte(hex.EncodeToString(b)))
-	l.addNeedle(what+":HEX", []byte(strings.ToUpper(hex.EncodeToString(b))))
-}
+// a byte secret: whole and by windows of 8 bytes, in every encoding (taint.go)
+func (l *life) addSecret(what string, b []byte) { l.sc.addSecret(what, b, true) }
 
 func (l *life) secretsOf(mnemonic, pass string) error {
 	words := bip39ref.Split(mnemonic)
-	l.addNeedle("mnemonic-sentence", []byte(strings.Join(words, " ")))
-	for i := 0; i+4 <= len(words); i++ {
-		l.addNeedle(fmt.Sprintf("mnemonic-words-%d..%d", i, i+3), []byte(strings.Join(words[i:i+4], " ")))
-	}
+	l.sc.addMnemonic(words)
 	ent, ok := bip39ref.DecodeWords(words)
 	if !ok {
 		return fmt.Errorf("the reference cannot decode the mnemonic")
@@ -123,8 +107,7 @@ func (l *life) secretsOf(mnemonic, pass string) error {
 	seed := bip39ref.Seed(words, pass)
 	l.addSecret("seed", seed)
 	l.addSecret("seed-first-half", seed[:32])
-	l.addNeedle("private-passphrase", []byte(pass))
-	l.addNeedle("private-passphrase:hex", []byte(hex.EncodeToString([]byte(pass))))
+	l.addSecret("private-passphrase", []byte(pass))
 	p := bipref.New()
 	l.rf = p
 	k, e := p.Master(bipref.XprvVer, seed)
@@ -187,9 +170,10 @@ func (l *life) found(where, what string) {
 }
 
 func (l *life) search(where string, hay []byte) {
-	for _, nd := range l.needles {
-		if bytes.Contains(hay, nd.b) {
-			l.found(where, nd.what)
+	l.sc.search(hay, func(what string) { l.found(where, what) })
+	if strings.HasPrefix(where, "error-of-") {
+		if n := mnemonicLikeRun(hay); n >= wordRunThreshold {
+			l.found(where, fmt.Sprintf("mnemonic-like-word-run:%d-consecutive-list-words", n))
 		}
 	}
 }
@@ -197,6 +181,21 @@ func (l *life) search(where string, hay []byte) {
 // snapshot copies the wallet database directory, opens the copy with goleveldb and returns every
 // key/value; the raw bytes of every file are searched as well.
 func (l *life) snapshot() (map[string]string, int, int) {
+	// goleveldb may rename or delete a table file between our directory listing and the copy
+	// (compaction runs in the background): take the copy again then
+	for try := 0; ; try++ {
+		kv, hays, total, err := l.snapshotOnce()
+		if err == nil || try == 4 {
+			if err != nil {
+				fmt.Fprintf(l.out, "X\t%d\tcannot open the copy of the wallet database: %v\n", l.n, err)
+			}
+			return kv, hays, total
+		}
+		time.Sleep(5 * time.Millisecond)
+	}
+}
+
+func (l *life) snapshotOnce() (map[string]string, int, int, error) {
 	src := simx.DBPath(l.dir)
 	dst := filepath.Join(l.root, fmt.Sprintf("copy-%d", l.step))
 	os.MkdirAll(dst, 0700)
@@ -219,8 +218,7 @@ func (l *life) snapshot() (map[string]string, int, int) {
 	kv := map[string]string{}
 	db, err := leveldb.OpenFile(dst, &opt.Options{ErrorIfMissing: true})
 	if err != nil {
-		fmt.Fprintf(l.out, "X\t%d\tcannot open the copy of the wallet database: %v\n", l.n, err)
-		return kv, hays, total
+		return kv, hays, total, err
 	}
 	it := db.NewIterator(nil, nil)
 	for it.Next() {
@@ -233,7 +231,7 @@ func (l *life) snapshot() (map[string]string, int, int) {
 	}
 	it.Release()
 	db.Close()
-	return kv, hays, total
+	return kv, hays, total, nil
 }
 
 func printable(b []byte) string {
@@ -339,7 +337,7 @@ func (l *life) afterStep(name string) bool {
 	l.lastKV = kv
 	al, _, _ := l.addrList()
 	fmt.Fprintf(l.out, "K\t%d\t%d:%s\t%s\t%d\t%d\t%d\t%s\t%s\n", l.n, l.step, name, l.id, l.entLen, len(l.remark), config.ChainParams.HDCoinType, al, l.rows(kv))
-	fmt.Fprintf(l.out, "N\t%d\t%d\t%d\t%d\t%d\n", l.n, l.step, len(l.needles), hays, total)
+	fmt.Fprintf(l.out, "N\t%d\t%d\t%d\t%d\t%d\n", l.n, l.step, l.sc.count(), hays, total)
 	stats["scans"]++
 	stats["scanned_bytes"] += total
 	return same
@@ -523,7 +521,7 @@ func runOne(seed uint64, n int, out *bufio.Writer) error {
 		return err
 	}
 	defer node.Close()
-	l := &life{r: r, n: n, out: out, root: root, node: node, pub: sim.PubPass, addrKeys: map[[2]uint32]bool{}}
+	l := &life{r: r, n: n, out: out, root: root, node: node, pub: sim.PubPass, addrKeys: map[[2]uint32]bool{}, sc: newScanner()}
 	l.dir = root + "/i1"
 	l.w, err = simx.Open(node, l.dir, l.pub)
 	if err != nil {
@@ -718,7 +716,18 @@ func main() {
 	first := flag.Int("first", 0, "index of the first history")
 	worker := flag.Bool("worker", false, "internal: run sequentially and print to stdout")
 	mgr := flag.Bool("mgr", false, "the keystore manager family (several wallets in one manager, see manager.go)")
+	flt := flag.Bool("flt", false, "the fault family (error paths under chain-database and wallet-database faults, see faults.go)")
+	sweep := flag.Bool("sweep", false, "fault family: every call number (up to a cap) instead of samples")
+	selftest := flag.Bool("selftest", false, "check the taint scan against planted leaks in every encoding and exit")
 	flag.Parse()
+	if *selftest {
+		if m := taintSelfTest(); len(m) > 0 {
+			fmt.Println("SELFTEST FAILED " + strings.Join(m, "; "))
+			os.Exit(1)
+		}
+		fmt.Println("SELFTEST ok")
+		return
+	}
 	if !*worker {
 		if err := hist.ParallelSelf(*count, *first, *workers, *outPath, os.Args[1:]); err != nil {
 			fmt.Fprintln(os.Stderr, err)
@@ -733,7 +742,9 @@ func main() {
 		var buf bytes.Buffer
 		bw := bufio.NewWriter(&buf)
 		var err error
-		if *mgr {
+		if *flt {
+			err = runFaults(seed, *first+i, *sweep, bw)
+		} else if *mgr {
 			err = runManager(seed, *first+i, bw)
 		} else {
 			err = runOne(seed, *first+i, bw)
